@@ -152,12 +152,17 @@ def heapPop (less : Cand → Cand → Bool) (h : Array Cand) : Option (Cand × A
 
 def getPart (ps : List Part) (a : Nat) : Option Part := ps.find? (·.start == a)
 
-/-- join the part starting at `a` with its successor, which must start at `b` -/
-def joinAt : List Part → Nat → Nat → Option (List Part)
+/-- `left, right := merges[a], merges[b]`; both must be live (non-empty) and pass the candidate's
+    validity test `ok left right`; then `merges[a].runes = left ++ right`, `merges[b]` dies.
+    The model looks `b` up as the live successor of `a`: in the Go code a candidate whose two
+    parts are both live is always adjacent (nothing between them was live when it was created
+    and dead entries stay dead) — linked-list invariant, validated by L1, not proved here. -/
+def joinAt (ok : Str → Str → Bool) : List Part → Nat → Nat → Option (List Part)
   | p :: q :: rest, a, b =>
     if p.start = a then
-      (if q.start = b then some ({ start := a, runes := p.runes ++ q.runes } :: rest) else none)
-    else (joinAt (q :: rest) a b).map (p :: ·)
+      (if q.start = b ∧ ok p.runes q.runes = true
+        then some ({ start := a, runes := p.runes ++ q.runes } :: rest) else none)
+    else (joinAt ok (q :: rest) a b).map (p :: ·)
   | _, _, _ => none
 
 /-- `merges[a].p` for a live `a` (none = -1) -/
@@ -186,20 +191,15 @@ def mergeLoop (cfg : Cfg) (n : Nat) : Nat → List Part → Array Cand → List 
     match heapPop cfg.less h with
     | none => ps
     | some (c, h) =>
-      match getPart ps c.a, getPart ps c.b with
-      | some l, some r =>
-        if cfg.ok c l.runes r.runes then
-          match joinAt ps c.a c.b with
-          | some ps' =>
-            let h := match prevStart ps' c.a with
-              | some p => pushCand cfg ps' h p c.a
-              | none => h
-            let nx := nextStart ps' c.a n
-            let h := if nx < n then pushCand cfg ps' h c.a nx else h
-            mergeLoop cfg n f ps' h
-          | none => mergeLoop cfg n f ps h   -- not adjacent: never observed (linked-list invariant)
-        else mergeLoop cfg n f ps h
-      | _, _ => mergeLoop cfg n f ps h
+      match joinAt (cfg.ok c) ps c.a c.b with
+      | some ps' =>
+        let h := match prevStart ps' c.a with
+          | some p => pushCand cfg ps' h p c.a
+          | none => h
+        let nx := nextStart ps' c.a n
+        let h := if nx < n then pushCand cfg ps' h c.a nx else h
+        mergeLoop cfg n f ps' h
+      | none => mergeLoop cfg n f ps h
 
 def initParts (rs : Str) (i : Nat) : List Part :=
   match rs with
@@ -294,7 +294,11 @@ def parseByteTok (bs : Str) : Option (Option Nat) :=
 def spmCfg (V : Vocab) : Cfg where
   make l r := (V.tokId (l ++ r)).map fun id => (V.score id, (utf8s l).length + (utf8s r).length, [])
   less x y := x.key > y.key || (x.key == y.key && x.a < y.a)
-  ok c l r := (utf8s l).length + (utf8s r).length == c.size
+  /- Go tests only the byte size (staleness); a non-stale candidate was created from exactly these
+     `l`, `r`, for which `tokId (l ++ r)` was found.  The model re-tests that lookup (always true in
+     the Go code by the staleness argument; validated by L1, not proved here) so that "every merged
+     part is a token" is a checked fact of the model. -/
+  ok c l r := ((utf8s l).length + (utf8s r).length == c.size) && (V.tokId (l ++ r)).isSome
 
 def spmToken (V : Vocab) (tok : Str) : List Nat :=
   match V.tokId tok with
